@@ -269,17 +269,20 @@ pub fn build<Data: GarnishData>(parse_root: usize, parse_tree: Vec<ParseNode>, d
         }
 
         let last_instruction = data.get_instruction_iter().last();
-        let end_instructions = match nodes.get(root_index) {
+        // only the default terminator may be left out when the code already ends with one
+        // instructions a parent asked for (logical operand to boolean, jump back) are always needed,
+        // other paths join right before them
+        let (end_instructions, skip_if_present) = match nodes.get(root_index) {
             Some(Some(node)) => match &node.root_end_instruction {
-                Some(end_instruction) => end_instruction.clone(),
-                None => vec![(Instruction::EndExpression, None)],
+                Some(end_instruction) => (end_instruction.clone(), false),
+                None => (vec![(Instruction::EndExpression, None)], true),
             },
-            _ => vec![(Instruction::EndExpression, None)],
+            _ => (vec![(Instruction::EndExpression, None)], true),
         };
 
         for end_instruction in end_instructions {
             match last_instruction.clone().and_then(|i| data.get_instruction(i)) {
-                Some(instruction) if instruction == end_instruction => {}
+                Some(instruction) if skip_if_present && instruction == end_instruction => {}
                 _ => {
                     data.push_instruction(end_instruction.0, end_instruction.1)?;
                     instruction_metadata.push(InstructionMetadata::new(None));
